@@ -136,22 +136,44 @@ func (w *evalerT) evalTexts(texts []string) []backVal {
 
 // builtinTexts runs `repr $x` and `pprint $x` on the real Evaler and returns their byte output
 // without the final newline.
-func (w *evalerT) builtinTexts(x any) ([2]string, error) {
+func (w *evalerT) builtinTexts(x any) ([2]string, [2]bool, error) {
 	var out [2]string
+	var pan [2]bool
 	ns := eval.CombineNs(w.ev.Global(), eval.BuildNs().AddVar("x", vars.NewReadOnly(x)).Ns())
 	for i, code := range []string{"repr $x", "pprint $x"} {
 		port, collect, err := eval.CapturePort()
 		if err != nil {
-			return out, lib.Infra("%v", err)
+			return out, pan, lib.Infra("%v", err)
 		}
-		err = w.ev.Eval(parse.Source{Name: "[verif]", Code: code}, eval.EvalCfg{Ports: []*eval.Port{nil, port, nil}, Global: ns})
+		func() {
+			defer func() {
+				if p := recover(); p != nil {
+					pan[i] = true
+				}
+			}()
+			err = w.ev.Eval(parse.Source{Name: "[verif]", Code: code}, eval.EvalCfg{Ports: []*eval.Port{nil, port, nil}, Global: ns})
+		}()
 		_, bs := collect()
+		if pan[i] {
+			continue
+		}
 		if err != nil {
-			return out, lib.Infra("%s failed: %v", code, err)
+			return out, pan, lib.Infra("%s failed: %v", code, err)
 		}
 		out[i] = strings.TrimSuffix(string(bs), "\n")
 	}
-	return out, nil
+	return out, pan, nil
+}
+
+// safeText runs a repr call of the real code; a panic is an outcome to be judged, not a crash
+// of the executor.
+func safeText(f func() string) (s string, panicked bool) {
+	defer func() {
+		if p := recover(); p != nil {
+			s, panicked = "", true
+		}
+	}()
+	return f(), false
 }
 
 type backVal struct {
@@ -161,7 +183,7 @@ type backVal struct {
 }
 
 func runCase(c *lib.Ctx, ev *evalerT, ci caseIn) (caseRec, error) {
-	rec := caseRec{ID: ci.ID, Chk: ci.Src == "random" || ci.Src == "probe", V: listing(ci.V)}
+	rec := caseRec{ID: ci.ID, Chk: ci.Src == "random" || ci.Src == "probe" || ci.Src == "sweep", V: listing(ci.V)}
 	rs := repSel{seed: ci.Rep, dstr: map[string]string{}, dnum: map[string]any{}}
 	for n, h := range ci.DStr {
 		b, err := hex.DecodeString(h)
@@ -188,6 +210,7 @@ func runCase(c *lib.Ctx, ev *evalerT, ci caseIn) (caseRec, error) {
 	hs := histories(ci.V)
 	reals := make([]any, len(hs))
 	var texts []string
+	var panicked []bool // the call that should have produced texts[i] panicked
 	for hi, h := range hs {
 		rnd := rand.New(rand.NewSource(ci.Rep*131 + int64(hi)))
 		real, err := build(ci.V, h, rs, rnd)
@@ -195,19 +218,28 @@ func runCase(c *lib.Ctx, ev *evalerT, ci caseIn) (caseRec, error) {
 			return rec, lib.Infra("case %d: %v", ci.ID, err)
 		}
 		reals[hi] = real
-		texts = append(texts, vals.ReprPlain(real), vals.Repr(real, 0))
+		p1, pan1 := safeText(func() string { return vals.ReprPlain(real) })
+		p2, pan2 := safeText(func() string { return vals.Repr(real, 0) })
+		texts = append(texts, p1, p2)
+		panicked = append(panicked, pan1, pan2)
 	}
 	// one more run: the texts as the builtins `repr` and `pprint` print them (byte output)
 	if ci.ID%4 == 1 || ci.Src == "probe" {
-		bt, err := ev.builtinTexts(reals[0])
+		bt, bpan, err := ev.builtinTexts(reals[0])
 		if err != nil {
 			return rec, err
 		}
 		hs = append(hs, "builtin:"+hs[0])
 		reals = append(reals, reals[0])
 		texts = append(texts, bt[0], bt[1])
+		panicked = append(panicked, bpan[0], bpan[1])
 	}
 	backs := ev.evalTexts(texts)
+	for i, p := range panicked {
+		if p { // no text was printed: recorded as a failed read-back of class "repr-panic"
+			backs[i] = backVal{why: "repr-panic"}
+		}
+	}
 	c.AddEvals(2 * len(texts))
 	backIdx := map[string]int{}
 	addBack := func(b backVal) int {
@@ -306,11 +338,25 @@ func judge(c *lib.Ctx, name string, cases []caseIn, recs []caseRec) error {
 			if runIdx >= 1 && int(runIdx) <= len(rec.Runs) {
 				r = rec.Runs[runIdx-1]
 			}
-			c.Reject("repr-"+reason+":"+shape(ci.V), fmt.Sprintf("%s: value %s (history %v) printed as %q / %q read back as %s / %s (real eq: %v / %v)",
-				reason, mustJSON(ci.V), r.Ords, unhex(r.Plain), unhex(r.Pretty), mustJSON(rec.Backs[r.Bp-1]), mustJSON(rec.Backs[r.Bq-1]), r.Eqp, r.Eqq), ci)
+			key := "repr-" + reason + ":" + shape(ci.V)
+			if b := rec.Backs[r.Bp-1]; b.K == "error" && b.A == "repr-panic" {
+				key = "repr:panic:" + shape(ci.V)
+			} else if b := rec.Backs[r.Bq-1]; b.K == "error" && b.A == "repr-panic" {
+				key = "repr:panic:" + shape(ci.V)
+			}
+			c.Reject(key, fmt.Sprintf("%s: value %s%s (history %v) printed as %q / %q read back as %s / %s (real eq: %v / %v)",
+				reason, mustJSON(ci.V), dynText(ci), r.Ords, unhex(r.Plain), unhex(r.Pretty), mustJSON(rec.Backs[r.Bp-1]), mustJSON(rec.Backs[r.Bq-1]), r.Eqp, r.Eqq), ci)
 		}
 	}
 	return nil
+}
+
+// dynText names the dynamic atoms of a case (for messages).
+func dynText(ci caseIn) string {
+	if len(ci.DNum) == 0 && len(ci.DStr) == 0 {
+		return ""
+	}
+	return " with numbers " + mustJSON(ci.DNum) + " strings(hex) " + mustJSON(ci.DStr)
 }
 
 func mustJSON(v any) string { b, _ := json.Marshal(v); return string(b) }
@@ -472,6 +518,12 @@ func run(c *lib.Ctx) error {
 		cases = append(cases, fc...)
 	}
 	nG := len(cases)
+	// dense sweep of exact numbers (every int in -300..1100, powers of two and of ten with their
+	// neighbours up to and beyond the machine-int range), each at top level and as list element,
+	// map key and map value
+	sw := sweepCases()
+	cases = append(cases, sw...)
+	c.Set("sweep_cases", len(sw))
 	c.Set("exhaustive", true)
 	c.Set("families", perFam)
 
